@@ -148,7 +148,7 @@ def prologue_summary(fn):
         a = cq.cond_atoms(c, None, None, cn)
         if not t:
             a = cq._negate(a)
-        txt = repr(a)
+        txt = cq.atom_text(a)
         for v in loops:
             txt = txt.replace(v, "K")
         errs.add((txt, tuple(ranges.get(v) for v in loops)))
@@ -222,7 +222,7 @@ def run(rep):
     cnp = Canon()
     want_err = {"order": cq.cond_atoms("nparams > 10 || nparams <= 0", True, None, cnp)}
     txts = {t for t, _r in es}
-    rep.check(repr(want_err["order"]) in txts, "R17.c", file, "c_armodel_sim", "order outside 1..10 is rejected", str(sorted(txts))[:200], line=fs["line"])
+    rep.check(cq.atom_text(want_err["order"]) in txts, "R17.c", file, "c_armodel_sim", "order outside 1..10 is rejected", str(sorted(txts))[:200], line=fs["line"])
     rep.check(any(t.startswith("('isnan'") and "params" in t and r == (("0", "-1 + nparams"),) for t, r in es), "R17.c", file, "c_armodel_sim",
               "a NaN coefficient among params[0..nparams-1] is rejected", str(sorted(es))[:300], line=fs["line"])
     for nm in ("sim_mean", "sim_ini"):
